@@ -5,6 +5,7 @@ CONSTANTS
   ExportScripts = FALSE
   EnableFaults = FALSE
   EnableRestart = FALSE
+  EnableDebugWrites = FALSE
   SrcVals = {0}
   Dts = {1, 2, 3, 5}
 VIEW View
